@@ -165,6 +165,8 @@ def check(ctx):
                 queues.append(b)
             if _is_entity_scheduler(prog, fr):
                 queues.append(b)
+            if n2 == "Vec::push" and any("ReactionCommand" in a for a in fr.get("args", [])):
+                queues.append(b)      # the shared entity scheduler inlined: it buffers the command here
         heads = []
         for b, t, fr in m.iter_calls():
             if fr and lib.tail(mir.fn_name(fr), 2) in ("Query::contains", "Query::get", "Query::get_mut") and len(t["args"]) > 1:
